@@ -217,6 +217,25 @@ def outcome (ctx : Ctx) (lim : Limits) (prev : Outcome) (obs : List (Option Obse
   let agreed := agreedOf ctx lim (tally ctx os) πres
   { agreed := agreed, surfaced := surfacedOf ctx lim agreed prev.surfaced os πblk }
 
+/-- the previous outcome as `Outcome` receives it: `outctx.PreviousOutcome` is a byte slice (`nonNil`, `len`);
+`decoded` is what the JSON layer makes of those bytes (`none` = they do not decode) -/
+structure PrevIn where
+  nonNil  : Bool
+  len     : Nat
+  decoded : Option Outcome
+
+def emptyOutcome : Outcome := { agreed := [], surfaced := [] }
+
+/-- `Outcome` as libocr calls it (ocr3.go): a nil and empty previous outcome stands for the first round; otherwise the
+bytes must decode AND validate (`DecodeAutomationOutcome`), else the call fails (`none`) without an outcome -/
+def outcomeCall (ctx : Ctx) (lim : Limits) (pi : PrevIn) (obs : List (Option Observation))
+    (πres : List String) (πblk : List BlockKey) : Option Outcome :=
+  if pi.nonNil || decide (pi.len ≠ 0) then
+    match pi.decoded with
+    | some p => if validOutcome ctx lim p then some (outcome ctx lim p obs πres πblk) else none
+    | none => none
+  else some (outcome ctx lim emptyOutcome obs πres πblk)
+
 /-- canonical iteration orders (what the driver uses; any permutation gives the same outcome) -/
 def resKeys (ctx : Ctx) (os : List Observation) : List String := (tally ctx os).map (·.key)
 def blkKeys (os : List Observation) : List BlockKey := (os.flatMap (·.blockHistory)).eraseDups
